@@ -378,6 +378,41 @@ theorem late_count_exact_when_quiet (maxSize : Nat) (s later : State) (l : Label
   have : r.recs.length = r.n := by rw [hrecs, List.length_take]; omega
   omega
 
+/-! ## the late count under the per-partition write lock -/
+
+theorem run_submits_chunks (maxSize : Nat) : ∀ (more : List Label) (s : State),
+    (∀ l ∈ more, ∃ v b, l = .submit v b) → (run maxSize s more).chunks = s.chunks := by
+  intro more
+  induction more with
+  | nil => intro s _; rfl
+  | cons l ls ih =>
+    intro s h
+    obtain ⟨v, b, rfl⟩ := h l (by simp)
+    simp only [run]
+    rw [ih _ (fun x hx => h x (by simp [hx]))]
+    cases hs : step maxSize s (.submit v b) with
+    | none => rfl
+    | some s' => simpa using step_submit_chunks maxSize s s' v b hs
+
+theorem between_submits (noEv : Nat → Bool) (w : Nat) (more : List Label) (hall : ∀ v, takesLock (noEv v) = true) :
+    ∀ l ∈ between noEv w more, ∃ v b, l = .submit v b := by
+  intro l hl
+  simp only [between, List.mem_filter] at hl
+  obtain ⟨_, h⟩ := hl
+  cases l with
+  | submit v b => exact ⟨v, b, rfl⟩
+  | getChunk v => simp [hall] at h
+  | chunkWrite v => simp [hall] at h
+
+/-- **with every writer of the partition under the write lock the late count is exact**: whatever the others try between a call's
+return and its count read -/
+theorem late_count_exact_when_all_lock (maxSize : Nat) (noEv : Nat → Bool) (hall : ∀ v, takesLock (noEv v) = true)
+    (s : State) (more : List Label) (l : Label) (r : Ret) (h : retOf maxSize s l = some r) :
+    lateCount (run maxSize ((step maxSize s l).getD s) (between noEv r.w more)) r.chunk - r.n = r.first := by
+  apply late_count_exact_when_quiet maxSize s _ l r h
+  simp only [lateCount]
+  rw [run_submits_chunks maxSize _ _ (between_submits noEv r.w more hall)]
+
 /-! ## the late read is not safe -/
 
 /-- writers 1 and 2 both hold chunk 0; writer 1 is about to write -/
